@@ -396,6 +396,9 @@ def check_property(w):
 # ------------------------------------------------------------------------------------------
 
 ANGLES = [k * PI / 4 for k in range(-8, 9)] + [1.0, -2.5, 0.3, 6.0, -5.5, 1e-3]
+# geometric ladder of tiny angles, both signs: the superconducting compiler gives every rotation below a quarter turn a pulse of the
+# duration of a quarter turn with a proportionally lowered amplitude - whatever the angle
+TINY = [sg * 10.0 ** (-k) for k in range(3, 9) for sg in (1, -1)]
 NONUNI = {
     "cq": {"deltamax": [1.0, 0.5, 2.0], "epsmax": [9.5, 8.0, 4.0], "eps": [9.5, 9.0, 8.5], "delta": [0.0, 0.5, 0.25],
            "g": [0.0078125, 0.015625, 0.01171875], "w0": 10.0},
@@ -766,6 +769,11 @@ class C18(PropertyCheck):
                             cases.append((dev, N, params, [["CNOT", [q2], [q1], None]], True))
                             for a in (PI / 2, -PI / 2, 0.3, -1.0, PI, 2 * PI, -2 * PI):
                                 cases.append((dev, N, params, [["RZX", [q1, q2], [], a]], True))
+                    if N <= 2:
+                        for q in range(N):
+                            for a in TINY:
+                                cases.append((dev, N, params, [["RX", [q], [], a]], True))
+                                cases.append((dev, N, params, [[("RZ" if dev == "cq" else "RY"), [q], [], a]], params is None))
                     cases.append((dev, N, params, [["GLOBALPHASE", [], [], 0.7]], True))
                     cases.append((dev, N, params, [["IDLE", [0], [], 2.5]], True))
         return cases
@@ -1024,6 +1032,16 @@ class C18(PropertyCheck):
                 yield dict(base, mode="ALAP", gates=[["CNOT", [1], [0], None]])
                 yield dict(base, gates=[["SWAP", [0, 1], [], None]] if dev == "cq" else [["CSIGN", [0], [1], None]])
 
+    def _tiny_ladder(self):
+        """cheap 1-2 qubit superconducting circuits with a rotation by a tiny angle (1e-8 ... 1e-3, both signs) next to ordinary
+        pulses: before / after a full turn, between two rotations, before a CNOT"""
+        for a in TINY:
+            base = {"dev": "scq", "params": None, "mode": "ASAP"}
+            yield dict(base, N=1, gates=[["RX", [0], [], a], ["RX", [0], [], 2 * PI]])
+            yield dict(base, N=1, gates=[["RX", [0], [], 2 * PI], ["RY", [0], [], a]])
+            yield dict(base, N=1, gates=[["RY", [0], [], PI], ["RX", [0], [], a], ["RY", [0], [], -PI / 2]])
+            yield dict(base, N=2, gates=[["RY", [0], [], a], ["CNOT", [1], [0], None]])
+
     def _rand_witness(self, rng):
         dev = rng.choice(["cq", "scq"])
         N = rng.randint(1, 3 if dev == "cq" else 2)
@@ -1055,7 +1073,7 @@ class C18(PropertyCheck):
         t0 = time.time()
         for w in itertools.chain(({"kind": "history", "params": None, **h} for h in self.FIXED_HISTORIES),
                                  (self._rand_history(ctx.rng, cheap=True) for _ in range(12)),
-                                 self._nonuniform(small_only=True), self._systematic(), self._nonuniform()):
+                                 self._tiny_ladder(), self._nonuniform(small_only=True), self._systematic(), self._nonuniform()):
             f, d = check_property(w)
             if f:
                 yield w, d
@@ -1090,6 +1108,12 @@ class C18(PropertyCheck):
             nh += 1
             if f:
                 yield w, d
+        nt = 0
+        for w in self._tiny_ladder():
+            f, d = check_property(w)
+            nt += 1
+            if f:
+                yield w, d
         t0 = time.time()
         allw = list(self._systematic())
         two = [w for w in allw if len(w["gates"][0][1]) + len(w["gates"][0][2]) == 2 and w["N"] == 2]
@@ -1110,7 +1134,7 @@ class C18(PropertyCheck):
             if f:
                 yield w, d
         ctx.log(f"measured fidelity / leakage on {n} native gates and short circuits at the default parameters, and on {nn} native "
-                f"gates of two-qubit devices with non-uniform per-qubit control strengths (search beyond the claim); {nh} reuse histories measured after every load")
+                f"gates of two-qubit devices with non-uniform per-qubit control strengths (search beyond the claim); {nh} reuse histories measured after every load; {nt} circuits of the tiny-angle ladder")
 
 
 CHECK = C18()
